@@ -26,7 +26,7 @@ pub struct Case {
     pub evs: Vec<Step>,
 }
 
-pub const N_STARTS: u8 = 7;
+pub const N_STARTS: u8 = 8;
 
 /// canonical prefix reaching each handshake / teardown state
 fn prefix(start: u8) -> (bool, Vec<Step>) {
@@ -39,7 +39,10 @@ fn prefix(start: u8) -> (bool, Vec<Step>) {
         3 => (true, vec![Step::W(WOp::Write { n: 700, chunk: 1 << 20 })]),            // established, own data unacked
         4 => (true, vec![Step::W(WOp::Shutdown)]),                                    // our FIN sent, not acked (FinWait1)
         5 => (true, vec![Step::W(WOp::Shutdown), ackall.clone()]),                    // our FIN acked (FinWait2)
-        _ => (true, vec![Step::Peer(PeerOp::Fin { dseq: 0 })]),                       // their FIN received (LastAck)
+        6 => (true, vec![Step::Peer(PeerOp::Fin { dseq: 0 })]),                       // their FIN received (LastAck)
+        // our FIN acknowledged by a data packet: FinWait2 proper (a plain ST_STATE that acks our FIN with the
+        // next sequence number is taken for the peer's FIN by a documented heuristic and closes at once)
+        _ => (true, vec![Step::W(WOp::Shutdown), Step::Peer(PeerOp::DataAck { dseq: 0, len: 200 })]),
     }
 }
 
@@ -53,6 +56,7 @@ pub fn alphabet() -> Vec<Step> {
         Step::Peer(PeerOp::Data { dseq: 0, len: 200 }),
         Step::Peer(PeerOp::Data { dseq: 2, len: 200 }),
         Step::Peer(PeerOp::Data { dseq: -1, len: 200 }),
+        Step::Peer(PeerOp::DataAck { dseq: 0, len: 200 }),
         Step::Peer(PeerOp::Fin { dseq: 0 }),
         Step::Peer(PeerOp::FinAck { dseq: 0 }),
         Step::Peer(PeerOp::Fin { dseq: 2 }),
@@ -569,8 +573,8 @@ fn exhaustive(ctx: &mut Ctx, depth: usize) {
 pub fn run(ctx: &mut Ctx) {
     ctx.rule("SP: event alphabet of 24 events (peer: SYN dup, STATE acking everything/stale/future, DATA next/ahead/old, FIN next/next+ack/ahead/old, RESET acking our FIN or not; application: write small/multi-segment, shutdown, drop writer, drop reader, read; clock: 40 ms, 200 ms, 1 s, 11 s) from 7 start states x 2 handshake directions; exhaustive for all sequences up to depth 2 (quick) / 3 (thorough) plus generated sequences up to 12/20 events. Observer oracle on the wire log: SYN-ACK form/interval/count; own FIN seq = last data + 1, after all accepted data, no new payload after it, retransmitted with back-off until acked, due at once when everything is acknowledged; peer FIN honoured only in sequence, acked and answered at the same instant; RESET: nothing emitted afterwards, pending operations fail at once. non-trivial = leaves Established and contains an out-of-order/duplicate/stale control datagram; distinct by hash of the emitted (type, relative seq, ms) sequence");
     ctx.replay_corpus::<Sp>();
-    exhaustive(ctx, ctx.tier.pick(2, 3));
-    ctx.run_generated::<Sp>(ctx.tier.pick(4_000, 300_000));
+    exhaustive(ctx, ctx.tier.pick(3, 4));
+    ctx.run_generated::<Sp>(ctx.tier.pick(60_000, 3_000_000));
 }
 
 pub fn replay(v: &Value) -> Option<i32> {
